@@ -6,7 +6,7 @@ import itertools
 
 import numpy as np
 
-from .. import gen, monitors
+from .. import derive, gen, monitors
 
 PID = "C03"
 ANCHORS = ["scores.py:Scores._invert_increasing_function", "scores.py:Scores._threshold_at_ratio",
@@ -51,7 +51,8 @@ def cases(ctx):
         sc, ec = gen.cfg(rng)
         extra = np.array([float(rng.uniform(-2, 0)), float(rng.uniform(1, 3)), float(rng.uniform(0, 1))])
         yield {"pos": pos, "neg": neg, "ep": ep, "en": en, "sc": sc, "ec": ec, "kind": kind,
-               "targets": np.concatenate([EXTREME, extra]), "form": str(rng.choice(["array", "array", "scalar", "list", "2d"]))}
+               "targets": np.concatenate([EXTREME, extra]), "form": str(rng.choice(["array", "array", "scalar", "list", "2d"])),
+               "via": str(rng.choice(derive.VIAS)), "_seed": int(rng.integers(1 << 31))}
 
 
 def exhaustive(ctx):
@@ -79,7 +80,8 @@ def scenarios(ctx):
 def execute(ctx, case):
     from score_analysis import BootstrapConfig, Scores, roc, roc_with_ci
 
-    s = Scores(case["pos"], case["neg"], nb_easy_pos=case["ep"], nb_easy_neg=case["en"], score_class=case["sc"], equal_class=case["ec"])
+    with monitors.oracle_scope_ctx():  # the warm-up queries of a history are not part of what is judged here
+        s = derive.build(case["pos"], case["neg"], case["ep"], case["en"], case["sc"], case["ec"], case.get("via", "ctor"), case.get("_seed", 0))
     tg = case["targets"]
     form = case["form"]
     if form == "traffic":
